@@ -25,10 +25,20 @@ C07  max_advance is a sound promise.
                   step that is itself traceable.  From the state in which the request went out, along every
                   run, every step the simulator has in flight with a time in `(t, m]`, and every step scheduled
                   for it at a time `≤ m`, is traceable to the simulator itself.
+`ancestor_table_is_minimum` : the table the promise rests on.  For every pop order of the worklist of
+                  `cache_triggering_ancestors` for which the computation succeeds, every entry of the
+                  triggering-ancestor table is the accumulated delay of a real path of trigger connections, and for
+                  every real trigger path there is an entry at most its accumulated delay: the entries are the minima
+                  over all trigger paths (`Closure/AncTable.lean`).  `ancestor_closure_hypotheses` derives from it the
+                  two closure hypotheses of `WFCfg` (`direct`, `trans`) the scheduler theorems use — they need not be
+                  assumed, nor only checked per scenario, for tables that are well-shaped and uniform (all trigger
+                  paths between two simulators have one cutoff: the complement of finding D7); `ancestor_table_of_checks`
+                  takes the executable checks the driver evaluates on every generated graph (`w.cychyp`).
 -/
 import MosaikProofs.Sched.Shield
 import MosaikProofs.Sched.Taint
 import MosaikProofs.Properties.C01
+import MosaikProofs.Closure.AncTable
 namespace Mosaik.C07
 open Mosaik
 
@@ -278,5 +288,40 @@ example : ∀ a ∈ exPost, Quiet exCfg 1 2 a := by
   rcases ha with rfl | rfl | rfl | rfl | rfl | rfl <;> simp [Quiet]
 example : ((exec exCfg (initState exCfg) (exPre ++ exPost)).map fun s => (s.failed.isNone, (s.sims 1).cur, (s.sims 1).begun))
     = some (true, some [3], [[3], [0]]) := by decide
+
+/-! ### the triggering-ancestor table -/
+
+/-- the table of `cache_triggering_ancestors` holds the minima over all trigger paths (statement and proof:
+`Closure/AncTable.lean`) -/
+theorem ancestor_table_is_minimum (sims : List SimCfg) (orc : List Nat) (hS : ShapedT sims) (hR : TrigRange sims) (hU : UniformT sims)
+    {out : List SimCfg} (h : cacheTriggeringAncestors sims orc = .ok out) :
+    (∀ t, t < sims.length → ∀ s d, lookupTI (out.getD t {}).trigAnc s = some d → TrigPath sims s t d) ∧
+    (∀ s t d, TrigPath sims s t d → ∃ e, lookupTI (out.getD t {}).trigAnc s = some e ∧ TI.le e d) :=
+  anc_table_minimum sims orc hS hR hU h
+
+/-- … hence it satisfies the closure hypotheses `direct` and `trans` of the scheduler theorems -/
+theorem ancestor_closure_hypotheses (sims : List SimCfg) (orc : List Nat) (hS : ShapedT sims) (hR : TrigRange sims) (hU : UniformT sims)
+    (hW : ∀ s tr, tr ∈ (sims.getD s {}).triggers → tr.2.2.cutoff ≤ tr.2.2.pre)
+    {out : List SimCfg} (h : cacheTriggeringAncestors sims orc = .ok out) :
+    (∀ p tr, tr ∈ (sims.getD p {}).triggers → ∃ ad ∈ (out.getD tr.2.1 {}).trigAnc, ad.1 = p ∧ TI.le ad.2 tr.2.2) ∧
+    (∀ p tr, tr ∈ (sims.getD p {}).triggers → ∀ q, q < sims.length → ∀ bd, lookupTI (out.getD q {}).trigAnc tr.2.1 = some bd →
+      ∃ ad ∈ (out.getD q {}).trigAnc, ad.1 = p ∧ TI.le ad.2 (TI.add tr.2.2 bd)) :=
+  anc_direct_trans sims orc hS hR hU hW h
+
+/-- the same from the executable checks (every scenario without groups passes them) -/
+theorem ancestor_table_of_checks (sims : List SimCfg) (orc : List Nat) (h1 : shapedTB sims = true) (h2 : constCutoffTB sims = true)
+    {out : List SimCfg} (h : cacheTriggeringAncestors sims orc = .ok out) :
+    (∀ t, t < sims.length → ∀ s d, lookupTI (out.getD t {}).trigAnc s = some d → TrigPath sims s t d) ∧
+    (∀ s t d, TrigPath sims s t d → ∃ e, lookupTI (out.getD t {}).trigAnc s = some e ∧ TI.le e d) :=
+  anc_table_minimum sims orc (shapedTB_sound h1).1 (shapedTB_sound h1).2.1 (constCutoffTB_sound h2) h
+
+/-- non-vacuity: a diamond A → B → D, A → C → D with delays 1 + 0 and 0 + 2, and A → D directly with delay 3: the table of D
+holds the minimum 1 for A -/
+example : let sims : List SimCfg :=
+      [ { triggers := [((0, 0), 1, ⟨1, 1, [1]⟩), ((0, 0), 2, ⟨1, 1, [0]⟩), ((0, 0), 3, ⟨1, 1, [3]⟩)] },
+        { triggers := [((0, 0), 3, ⟨1, 1, [0]⟩)] }, { triggers := [((0, 0), 3, ⟨1, 1, [2]⟩)] }, {} ]
+    shapedTB sims = true ∧ constCutoffTB sims = true ∧
+    (cacheTriggeringAncestors sims []).toOption.map (fun out => lookupTI (out.getD 3 {}).trigAnc 0) = some (some ⟨1, 1, [1]⟩) := by
+  decide
 
 end Mosaik.C07
